@@ -40,6 +40,9 @@ def compute_poc(force, method="deviation_from_baseline", ret_details=False):
     If the POC method returns np.nan, then the center of the
     force data is returned (to allow fitting algorithms to proceed).
     """
+    # (the fallback below refers to the data passed by the caller, not to
+    # the clipped approach part, which may be empty)
+    size = force.size
     # compute POC according to method chosen
     for mfunc in POC_METHODS:
         if mfunc.identifier == method:
@@ -55,7 +58,7 @@ def compute_poc(force, method="deviation_from_baseline", ret_details=False):
     else:
         raise ValueError(f"Undefined POC method '{method}'!")
     if np.isnan(cp):
-        cp = force.size // 2
+        cp = size // 2
     if ret_details:
         return cp, details
     else:
@@ -184,7 +187,8 @@ def poc_fit_constant_line(force, ret_details=False):
 
         out = lmfit.minimize(residual, params, args=(x, y), method="nelder")
         if out.success:
-            cp = int(out.params["x0"])
+            # (the optimiser may leave the data range: return a valid index)
+            cp = int(np.clip(out.params["x0"].value, 0, y.size - 1))
             if ret_details:
                 details["plot force"] = [x, force]
                 details["plot fit"] = [np.arange(force.size),
@@ -275,7 +279,8 @@ def poc_fit_constant_polynomial(force, ret_details=False):
         out = lmfit.minimize(residual, params, args=(x, y), method="nelder")
 
         if out.success:
-            cp = int(out.params["x0"])
+            # (the optimiser may leave the data range: return a valid index)
+            cp = int(np.clip(out.params["x0"].value, 0, y.size - 1))
             if ret_details:
                 details["plot force"] = [x, force]
                 details["plot fit"] = [np.arange(force.size),
@@ -362,7 +367,8 @@ def poc_fit_line_polynomial(force, ret_details=False):
         params.add('d', value=np.mean(y[:10]))
         params.add('x0', value=x0)
         # slope
-        params.add('m', value=y[x0]/x0)
+        # (no baseline in front of an estimate at index 0: start flat)
+        params.add('m', value=y[x0]/x0 if x0 > 0 else 0)
         # The polynomial fitting parameters are supposed to be
         # greater than zero (source?). We set the minimum to 1e-3 so
         # the fitting algorithm becomes more stable. Also, the initial
@@ -377,7 +383,8 @@ def poc_fit_line_polynomial(force, ret_details=False):
         out = lmfit.minimize(residual, params, args=(x, y), method="nelder")
 
         if out.success:
-            cp = int(out.params["x0"])
+            # (the optimiser may leave the data range: return a valid index)
+            cp = int(np.clip(out.params["x0"].value, 0, y.size - 1))
             if ret_details:
                 details["plot force"] = [x, force]
                 details["plot fit"] = [np.arange(force.size),
